@@ -176,14 +176,13 @@ impl Widget {
             if let Some(refs) = expr::build_object_ref_list(p, diagnostics) {
                 refs.into_iter()
                     .map(|id| {
-                        let o = ctx
-                            .object_tree
-                            .get_by_id(&id)
-                            .expect("object ref must be valid");
-                        if is_action_separator(ctx, o, diagnostics) {
-                            ACTION_SEPARATOR_NAME.to_owned()
-                        } else {
-                            id
+                        // the ref may carry a generated object name (e.g. the implicit "this"
+                        // of an anonymous object), which can't be looked up by id.
+                        match ctx.object_tree.get_by_id(&id) {
+                            Some(o) if is_action_separator(ctx, o, diagnostics) => {
+                                ACTION_SEPARATOR_NAME.to_owned()
+                            }
+                            _ => id,
                         }
                     })
                     .collect()
